@@ -30,9 +30,10 @@ typedef struct S_class_ikos__wto_nesting NEST;
 typedef struct S_class_boost__optional OPTN;
 typedef struct S_class_boost__container__slist SLIST;
 typedef struct S_class_std__unordered_map_21 AMAP;                                       /* std::unordered_map<label, GV> (assumptions) */
-typedef struct S_struct_std____detail___Hash_node_56 ANODE;
-typedef struct S_struct_std__pair_62 APAIR;
+typedef struct S_struct_std____detail___Hash_node ANODE;
+typedef struct S_struct_std__pair APAIR;
 typedef struct S_class_ikos__wto WTO;
+typedef struct S_struct_boost__container__base_node SNODE;                                /* slist node: f0 hook (next), f1 the shared_ptr<wto_component> */
 typedef struct S_struct_TCFG TCFG;
 #define SLIST_ROOT(l) ((l)->f0.f0.f0.f0.f1.f0.f0)
 #define SLIST_SIZE(l) ((l)->f0.f0.f0.f0.f0.f0)
@@ -64,6 +65,8 @@ uint64_t __CPROVER_uninterpreted_fv_deeper(uint64_t, uint64_t);               /*
 #define DEEPER(a, b) ((__CPROVER_uninterpreted_fv_deeper(a, b) & 1) != 0)
 /* ---- scenario (chosen by the harness) and monitor state (advanced by the models) */
 extern uint64_t g_head, g_np, g_preds[NPMAX], g_akey; extern ANODE *g_anode;
+/* optional single body component (a vertex g_body with g_nbp <= 1 predecessors g_bp) */
+extern uint64_t g_has_body, g_body, g_nbp, g_bp[1]; extern uint32_t g_body_cp; extern uint64_t g_body_pre; extern uint8_t g_body_pre_set;
 extern uint32_t g_mode, g_epoch, g_phase, g_ext_n, g_ref_n, g_leq_n, g_cp_n, g_setpre_n;
 extern uint64_t g_cur, g_first, g_pre_tab, g_fix, g_last_ref, g_leq_a, g_leq_b;
 extern uint8_t g_pre_tab_set, g_leq_r;
@@ -75,6 +78,8 @@ static inline uint64_t fold_all(uint64_t e){
   if (g_np >= 1) v = J(v, POST(g_preds[0], e));
   if (g_np >= 2) v = J(v, POST(g_preds[1], e));
   return v; }
+/* pre-invariant of the body vertex: join of the current posts of ALL its predecessors */
+static inline uint64_t fold_body(uint64_t e){ uint64_t v = BOT; if (g_nbp >= 1) v = J(v, POST(g_bp[0], e)); return v; }
 /* initial join: only predecessors whose nesting is NOT deeper than the cycle's (i.e. not the back edges) */
 static inline uint64_t fold_init(void){
   uint64_t v = BOT;
